@@ -1574,7 +1574,11 @@ impl WriteTaskState {
         use either::Either;
 
         let LaneData { target, response } = response;
-        if let Some(remote_id) = target {
+        if let Some(remote_id) = target.filter(|remote_id| !write_tracker.has_remote(*remote_id)) {
+            //The remote has gone away since it made the request (creating a link to it would leak the link).
+            trace!(response = ?response, "Discarding response for removed remote {}.", remote_id);
+            Either::Left(Writes::Zero)
+        } else if let Some(remote_id) = target {
             trace!(response = ?response, "Routing response to {}.", remote_id);
             links.count_single(id);
             let write = if !links.is_linked(remote_id, id) {
